@@ -246,8 +246,19 @@ func (db *DB) startAsyncWritesRoutine(s *Schema) {
 		go func() {
 			for db.ctx.Err() == nil {
 				for slept := time.Duration(0); ; slept += step {
-					n := db.safeCountPendingAsyncW(s.object)
-					if n >= s.AsyncWrites.Threshold || slept >= s.AsyncWrites.Timeout {
+					// settings can be changed by Create while the routine is running
+					n, threshold, timeout, enabled := db.safeAsyncWritesState(s)
+					if !enabled {
+						// asynchronous writes have been disabled, the routine
+						// stops and will be started again if they are re-enabled
+						db.Lock()
+						if s.AsyncWrites != nil {
+							s.AsyncWrites.routineStarted = false
+						}
+						db.Unlock()
+						return
+					}
+					if n >= threshold || slept >= timeout {
 						// enter critical section
 						db.Lock()
 						// checking db.ctx not to race with db.Close function
@@ -265,6 +276,19 @@ func (db *DB) startAsyncWritesRoutine(s *Schema) {
 			}
 		}()
 	}
+}
+
+// safeAsyncWritesState returns the number of pending writes and the
+// asynchronous writes settings of a schema, read under the DB lock
+func (db *DB) safeAsyncWritesState(s *Schema) (n, threshold int, timeout time.Duration, enabled bool) {
+	db.RLock()
+	defer db.RUnlock()
+	if enabled = s.asyncWritesEnabled(); enabled {
+		threshold = s.AsyncWrites.Threshold
+		timeout = s.AsyncWrites.Timeout
+	}
+	n = db.asyncw.count(s.object)
+	return
 }
 
 func (db *DB) safeCountPendingAsyncW(of Object) (n int) {
